@@ -424,6 +424,16 @@ V("mp-worker-marker-in-finally", "break", ["C19", "C11"], BS, None, None, "the w
 V("mp-single-solver-shortcut", "break", ["C11", "C03"], MP,
   '        return self.optimize(variable_idx, "minimize_and_queue", operator.lt)', '        if len(self.solvers) == 1:\n            return self.solvers[0].minimize(variable_idx)\n        return self.optimize(variable_idx, "minimize_and_queue", operator.lt)',
   "a single sub-solver is run in the calling process (keeps its state between calls)", "minimize")
+V("mp-dead-first-truthiness", "break", ["C18"], MP,
+  "            dead = [idx for idx, process in enumerate(processes) if not finished[idx] and not process.is_alive()]\n",
+  "            dead = next((idx for idx, process in enumerate(processes) if not finished[idx] and not process.is_alive()), None)\n",
+  "first dead worker tested by truthiness: worker 0 is falsy", "MultiprocessingSolver")
+V("mp-timeout-none-default", "break", ["C18"], MP,
+  edits=[{"old": "def get_message(solutions: Queue, processes: List[Process], finished: List[bool]) ->", "new": "def get_message(solutions: Queue, processes: List[Process], finished: List[bool], timeout: Optional[float] = None) ->"},
+         {"old": "solutions.get(timeout=QUEUE_TIMEOUT)", "new": "solutions.get(timeout=timeout)", "all": True},
+         {"old": "            proc_idx, solution, statistics = get_message(solutions, processes, finished)\n            self.statistics[proc_idx] = statistics\n            if solution is None:\n                finished[proc_idx] = True\n                nb -= 1\n            else:",
+          "new": "            proc_idx, solution, statistics = get_message(solutions, processes, finished, QUEUE_TIMEOUT)\n            self.statistics[proc_idx] = statistics\n            if solution is None:\n                finished[proc_idx] = True\n                nb -= 1\n            else:"}],
+  old=None, new=None, what="polling period became a parameter defaulting to None; optimize() does not pass it", expect_fn="MultiprocessingSolver.optimize")
 V("mp-neutral-rename", "neutral", ["C11", "C18", "C17"], MP, None, None, "list renamed",
   edits=[{"old": "processes", "new": "procs", "all": True}])
 
@@ -588,6 +598,13 @@ V("gcc-precondition-neutral-reorder", "neutral", ["C04", "C16"], P + "gcc_propag
 """, """        domains[i, MAX] = skip_non_null_elements_left(u, domains[i, MAX])
         domains[i, MIN] = skip_non_null_elements_right(u, domains[i, MIN])
 """, "the two independent moves reordered")
+
+V("lex-guard-after-access", "break", ["C16"], P + "lexicographic_leq_propagator.py", None, None, "end-of-vector test evaluated after the access it guards (reads x[n])", "compute_domains_3",
+  within="def compute_domains_3", edits=[{"old": "    if i == n or x[i, MAX] < y[i, MIN]:", "new": "    if x[i, MAX] < y[i, MIN] or i == n:"}])
+V("lex-scan-leq-n", "break", ["C16"], P + "lexicographic_leq_propagator.py", None, None, "scan runs while i <= n", "compute_domains_4",
+  within="def compute_domains_4", edits=[{"old": "    while i < n and x[i, MIN] == y[i, MAX]:", "new": "    while i <= n and x[i, MIN] == y[i, MAX]:"}])
+V("lex-neutral-guard-swapped-operands", "neutral", ["C16", "C07", "C01"], P + "lexicographic_leq_propagator.py", None, None, "n == i instead of i == n",
+  within="def compute_domains_3", edits=[{"old": "    if i == n or x[i, MAX] < y[i, MIN]:", "new": "    if n == i or y[i, MIN] > x[i, MAX]:"}])
 
 # --------------------------------------------------------------------------------------------- loop variants
 V("lexleq-loop-no-step", "break", ["C04"], P + "lexicographic_leq_propagator.py", None, None, "scan loop loses its step", "lexicographic",
